@@ -173,3 +173,153 @@ Proof.
   pose proof (roundtrip_laws Cc cinit comp Cx decomp Rsync L1 L2 L3 L4 wc mx dt (map fst (c_order st)) segs cx0) as RT.
   cbv zeta in RT. rewrite HS, HW in RT. exact (RT WF SO AF CS).
 Qed.
+
+(* ---- submission order ------------------------------------------------------------------------------------------ *)
+Section Fifo.
+Variable Cc : Type.
+Variable cinit : N -> Cc.
+Variable comp : bool -> Cc -> bytes -> bytes * Cc.
+Variable wc : wcfg.
+
+Notation fstate := (fstate Cc).
+Notation fstep := (fstep Cc cinit comp wc).
+Notation frun := (frun Cc cinit comp wc).
+Notation cstep := (cstep Cc cinit comp wc).
+Notation comp_ops := (comp_ops wc).
+Notation is_comp_op := (is_comp_op wc).
+
+Lemma list_eqb_refl l : list_eqb l l = true.
+Proof. apply list_eqb_eq. reflexivity. Qed.
+
+Lemma sop_eqb_eq a b : sop_eqb a b = true -> a = b.
+Proof.
+  destruct a as [o1 p1 v1 r1|c1 p1 r1], b as [o2 p2 v2 r2|c2 p2 r2]; cbn [sop_eqb]; try discriminate;
+    rewrite !andb_true_iff, !N.eqb_eq, list_eqb_eq; intuition congruence.
+Qed.
+
+Definition cur_list (o : option sop) : list sop := match o with Some x => [x] | None => [] end.
+
+Definition finv (st : fstate) : Prop :=
+  comp_ops (c_order (f_c st)) ++ cur_list (f_cur st) ++ map snd (f_q st) = f_sub st
+  /\ (forall t o w n, c_lock (f_c st) = Some (t, HComp o w n) -> f_cur st = Some o)
+  /\ (forall o, f_cur st = Some o -> is_comp_op o = true).
+
+Lemma comp_ops_snoc order o n : comp_ops (order ++ [(o, n)]) = comp_ops order ++ (if is_comp_op o then [o] else []).
+Proof. unfold WsSend.comp_ops. rewrite map_app, filter_app. cbn [map fst filter]. reflexivity. Qed.
+
+Lemma fstep_inv (st st' : fstate) e :
+  finv st -> (forall t o, In (t, o) (f_q st) -> is_comp_op o = true) ->
+  fstep st e = Some st' ->
+  finv st' /\ (forall t o, In (t, o) (f_q st') -> is_comp_op o = true).
+Proof.
+  intros (J1 & J2 & J3) JQ ST. unfold finv. destruct e as [t o|e]; cbn [WsSend.fstep] in ST.
+  - destruct (is_comp_op o) eqn:CO; [|discriminate]. injection ST as <-. cbn [f_c f_q f_cur f_sub]. split; [split; [|split]|].
+    + rewrite map_app, !app_assoc. cbn [map snd]. rewrite <- J1, !app_assoc. reflexivity.
+    + exact J2.
+    + exact J3.
+    + intros t' o' I. apply in_app_or in I as [I|I]; [eapply JQ; exact I|]. destruct I as [I|[]]. injection I as _ <-. exact CO.
+  - destruct e as [t|t o|t|t|o].
+    + (* EAcq *)
+      destruct (f_q st) as [|[t' o] q'] eqn:Q; [discriminate|]. destruct (f_cur st) eqn:CU; [discriminate|].
+      destruct (t' =? t); [|discriminate].
+      destruct (cstep (f_c st) (EAcq t)) as [c'|] eqn:CS; [|discriminate]. injection ST as <-.
+      cbn [WsSend.cstep] in CS. destruct (c_lock (f_c st)); [discriminate|]. injection CS as <-.
+      cbn [f_c f_q f_cur f_sub c_order c_lock]. split; [split; [|split]|].
+      * rewrite <- J1. cbn [cur_list map snd app]. reflexivity.
+      * intros ? ? ? ? X. discriminate X.
+      * intros o' [= <-]. eapply JQ. left. reflexivity.
+      * intros t2 o2 I. eapply JQ. right. exact I.
+    + (* EComp *)
+      destruct (f_cur st) as [o'|] eqn:CU; [|discriminate]. destruct (sop_eqb o o') eqn:EQ; [|discriminate].
+      apply sop_eqb_eq in EQ. subst o'.
+      destruct (cstep (f_c st) (EComp t o)) as [c'|] eqn:CS; [|discriminate]. cbn [with_c] in ST. injection ST as <-.
+      cbn [WsSend.cstep] in CS. destruct (c_lock (f_c st)) as [[t' h]|]; [|discriminate]. destruct h; [|discriminate].
+      destruct ((t' =? t) && is_send o && negb (op_plainb wc o)); [|discriminate].
+      destruct (do_op Cc cinit comp wc (c_w (f_c st)) o); try discriminate. injection CS as <-.
+      cbn [f_c f_q f_cur f_sub c_order c_lock]. split; [split; [|split]|].
+      * rewrite <- J1; rewrite ?CU; reflexivity.
+      * intros ? ? ? ? [= _ <- _ _]. reflexivity.
+      * intros o2 [= <-]. apply J3. reflexivity.
+      * exact JQ.
+    + (* EWrite *)
+      destruct (cstep (f_c st) (EWrite t)) as [c'|] eqn:CS; [|discriminate]. cbn [with_c] in ST. injection ST as <-.
+      cbn [WsSend.cstep] in CS. destruct (c_lock (f_c st)) as [[t' h]|] eqn:L; [|discriminate]. destruct h as [|o w n]; [discriminate|].
+      destruct (t' =? t); [|discriminate]. injection CS as <-.
+      pose proof (J2 _ _ _ _ eq_refl) as CU. pose proof (J3 _ CU) as CO.
+      cbn [f_c f_q f_cur f_sub c_order c_lock]. split; [split; [|split]|].
+      * rewrite comp_ops_snoc, CO, <- J1, CU, <- !app_assoc. reflexivity.
+      * intros ? ? ? ? X. discriminate X.
+      * intros ? X. discriminate X.
+      * exact JQ.
+    + (* ERel *)
+      destruct (f_cur st) eqn:CU; [discriminate|].
+      destruct (cstep (f_c st) (ERel t)) as [c'|] eqn:CS; [|discriminate]. cbn [with_c] in ST. injection ST as <-.
+      cbn [WsSend.cstep] in CS. destruct (c_lock (f_c st)) as [[t' h]|]; [|discriminate]. destruct h; [|discriminate].
+      destruct (t' =? t); [|discriminate]. injection CS as <-.
+      cbn [f_c f_q f_cur f_sub c_order c_lock]. split; [split; [|split]|].
+      * rewrite <- J1; rewrite ?CU; reflexivity.
+      * intros ? ? ? ? X. discriminate X.
+      * intros ? X. discriminate X.
+      * exact JQ.
+    + (* EPlain *)
+      destruct (cstep (f_c st) (EPlain o)) as [c'|] eqn:CS; [|discriminate]. cbn [with_c] in ST. injection ST as <-.
+      cbn [WsSend.cstep] in CS. destruct (is_send o && op_plainb wc o) eqn:G; [|discriminate].
+      destruct (do_op Cc cinit comp wc (c_w (f_c st)) o); try discriminate. injection CS as <-.
+      cbn [f_c f_q f_cur f_sub c_order c_lock].
+      assert (NC : is_comp_op o = false).
+      { unfold WsSend.is_comp_op. apply andb_true_iff in G as [-> ->]. reflexivity. }
+      split; [split; [|split]|].
+      * rewrite comp_ops_snoc, NC, app_nil_r. exact J1.
+      * exact J2.
+      * exact J3.
+      * exact JQ.
+Qed.
+
+Lemma frun_inv evs : forall (st st' : fstate),
+  finv st -> (forall t o, In (t, o) (f_q st) -> is_comp_op o = true) -> frun st evs = Some st' -> finv st'.
+Proof.
+  induction evs as [|e evs IH]; intros st st' I Q R; cbn [WsSend.frun] in R.
+  - injection R as <-. exact I.
+  - destruct (fstep st e) as [s1|] eqn:E; [|discriminate].
+    destruct (fstep_inv _ _ _ I Q E) as (I1 & Q1). eapply IH; eassumption.
+Qed.
+
+(* MAIN: with a fair lock that is requested inside send_frame, the compressed messages reach the wire in the order
+   in which send_frame was called *)
+Theorem wire_order_is_submission_order evs (st : fstate) :
+  frun (finit_state Cc) evs = Some st -> f_q st = [] -> f_cur st = None ->
+  comp_ops (c_order (f_c st)) = f_sub st.
+Proof.
+  intros R Q CU.
+  assert (I0 : finv (finit_state Cc)) by (repeat split; intros; discriminate).
+  destruct (frun_inv evs _ _ I0 ltac:(intros ? ? []) R) as (J1 & _). rewrite Q, CU in J1. cbn in J1.
+  rewrite app_nil_r in J1. exact J1.
+Qed.
+
+(* the lock events of an accepted FIFO trace form an accepted trace of the plain system (so sequential consistency applies) *)
+Fixpoint proj_evs (evs : list fev) : list cev :=
+  match evs with [] => [] | FEnq _ _ :: r => proj_evs r | FEv e :: r => e :: proj_evs r end.
+
+Lemma fstep_cstep (st st' : fstate) e : fstep st (FEv e) = Some st' -> cstep (f_c st) e = Some (f_c st').
+Proof.
+  destruct e as [t|t o|t|t|o]; cbn [WsSend.fstep].
+  - destruct (f_q st) as [|[t' o] q']; [discriminate|]. destruct (f_cur st); [discriminate|].
+    destruct (t' =? t); [|discriminate]. destruct (cstep (f_c st) (EAcq t)); [|discriminate]. intros [= <-]. reflexivity.
+  - destruct (f_cur st); [|discriminate]. destruct (sop_eqb o s); [|discriminate].
+    destruct (cstep (f_c st) (EComp t o)); [|discriminate]. intros [= <-]. reflexivity.
+  - destruct (cstep (f_c st) (EWrite t)); [|discriminate]. intros [= <-]. reflexivity.
+  - destruct (f_cur st); [discriminate|]. destruct (cstep (f_c st) (ERel t)); [|discriminate]. intros [= <-]. reflexivity.
+  - destruct (cstep (f_c st) (EPlain o)); [|discriminate]. intros [= <-]. reflexivity.
+Qed.
+
+Lemma frun_crun evs : forall (st st' : fstate),
+  frun st evs = Some st' -> crun Cc cinit comp wc (f_c st) (proj_evs evs) = Some (f_c st').
+Proof.
+  induction evs as [|e evs IH]; intros st st' R; cbn [WsSend.frun] in R.
+  - injection R as <-. reflexivity.
+  - destruct (fstep st e) as [s1|] eqn:E; [|discriminate]. destruct e as [t o|e]; cbn [proj_evs].
+    + cbn [WsSend.fstep] in E. destruct (is_comp_op o); [|discriminate]. injection E as <-. exact (IH _ _ R).
+    + cbn [WsSend.crun]. rewrite (fstep_cstep _ _ _ E). exact (IH _ _ R).
+Qed.
+
+End Fifo.
